@@ -40,6 +40,12 @@ func VH_C12() {
 	// it must not matter once the default logger has been replaced
 	lvlCurrent = Level(vInt())
 	e := vChoose(vNumEntryPoints)
+	// the context: a real one, or nil on a logger with registered context keys (treated as an empty context)
+	var ctx context.Context = context.Background()
+	if vBool() {
+		lg.SetContextKeys("ck")
+		ctx = nil
+	}
 	var sev Level
 	if e == 24 || e == 25 {
 		// every built-in severity, and two registered ones that are GATED as Panic / Fatal: only the
@@ -66,7 +72,7 @@ func VH_C12() {
 				evsAtTermination = len(rec.evs)
 			}
 		}()
-		r, ok = vEntryPoint(e, lg, context.Background(), sev)
+		r, ok = vEntryPoint(e, lg, ctx, sev)
 	})
 	if exited {
 		evsAtTermination = len(rec.evs)
